@@ -189,8 +189,23 @@ def run(ctx):
             if len(ww) == 1:
                 wsl = flows.slice(ce.path, cf._op_reads(ww[0].args[2]), up=False, down="clos", data_only=True)
                 wc = {x.split("::")[-1] for x in callees_in(prog, wsl)}
-                k0 = fmt_desc(panic.shape(panic.norm(cf.describe(ww[0].args[0], depth=8))))
-                k1 = fmt_desc(panic.shape(panic.norm(cf.describe(ww[0].args[1], depth=8))))
+                def through_bindings(d_):
+                    # `let (u, v) = endpoints;` -- a pattern binding is the place it binds
+                    from engines import value_of_named
+
+                    for _ in range(4):
+                        if isinstance(d_, tuple) and d_[0] == "place" and "." not in d_[1]:
+                            v_ = value_of_named(cf, d_[1])
+                            if isinstance(v_, tuple):
+                                v_ = panic.norm(v_)
+                            if isinstance(v_, tuple) and v_[0] == "place":
+                                d_ = v_
+                                continue
+                        break
+                    return d_
+
+                k0 = fmt_desc(panic.shape(through_bindings(panic.norm(cf.describe(ww[0].args[0], depth=8)))))
+                k1 = fmt_desc(panic.shape(through_bindings(panic.norm(cf.describe(ww[0].args[1], depth=8)))))
                 okc = "sum" in wc and k0.endswith(".0") and k1.endswith(".1")
             ok4 = okc and any(x.endswith("convert::collapse_edges") for x in ecal) or (okc and "edges" in efs)
             uses_ce = True  # `ce` was found among the bodies reachable from to_single_edges
